@@ -348,7 +348,7 @@ type gxResult struct {
 }
 
 func (h *gxHarness) method(recv mv, t types.Type, name string) (mv, mOutcome) {
-	f := h.c.Prog.LookupMethod(t, nil, name)
+	f := h.c.lookupMethod(t, name)
 	if f == nil {
 		return nil, mOutcome{kind: "opaque", why: "accessor " + name + " not found"}
 	}
@@ -415,7 +415,7 @@ func (h *gxHarness) parse(ls []lexeme) gxResult {
 			val, o := h.method(toks[i], tokT, "Value")
 			n := "?"
 			if o.kind == "ok" {
-				if vt := h.c.Prog.LookupMethod(val2type(h, val), nil, "AsInteger"); vt != nil {
+				if vt := h.c.lookupMethod(val2type(h, val), "AsInteger"); vt != nil {
 					if iv, o2 := h.m.Call(vt, val); o2.kind == "ok" {
 						if k, ok := iv.(int64); ok {
 							n = fmt.Sprint(k)
